@@ -444,6 +444,8 @@ BindingsOf(w, m) ==
 \*             only bound because an import statement of the __init__ loaded that submodule
 \*   relmoved  a relative from-import that names a module some request may move or rename
 \*             (as its target, on the way to it, or as the imported name)
+\*   asmoved   an aliased from-import (from m import n as y) whose module some request may move or
+\*             take a definition out of
 \*   rootref   a plain import of a module some request may move, and a reference that starts with
 \*             the top-level name that import bound but does not go through that module
 \*   fromsub   a from-import whose imported name is a submodule of the package it names
@@ -485,6 +487,10 @@ TagsOfModule(w, m, exported) ==
                \/ \E p \in w.msrc \cup w.reloc : IsPrefix(p, FromTarget(w, m, b[i]))
                \/ \E it \in Range(b[i].items) : it.n \in { Last(p) : p \in w.msrc \cup w.reloc }
            THEN {"relmoved"} ELSE {})
+     \cup (IF \E i \in DOMAIN b : b[i].k = "from" /\ ~IsStar(b[i]) /\
+               (\E it \in Range(b[i].items) : it.as # "") /\
+               \E p \in w.msrc \cup w.reloc : IsPrefix(p, FromTarget(w, m, b[i]))
+           THEN {"asmoved"} ELSE {})
      \cup (IF \E i \in DOMAIN b : b[i].k = "import" /\
                \E it \in Range(b[i].items) :
                   /\ it.as = "" /\ Len(it.path) >= 2
